@@ -421,11 +421,11 @@ pub fn run(tier: Tier, seed: u64) -> i32 {
   let mut report = Report::new("C13", tier, seed, "exploration", rule);
   let known = Known::load("C13");
   super::prologue(&mut report, &known);
-  let (shards, cases) = match tier { Tier::Quick => (16, 300), Tier::Thorough => (16, 12000) };
+  let (shards, cases) = match tier { Tier::Quick => (16, 300), Tier::Thorough => (16, 5000) };
   let cfg = SearchCfg { prop: "C13", label: "pair", seed, shards, cases_per_shard: cases, max_shrink_iters: 400 };
   let (stats, found) = driver::search(&cfg, &known, strategy, |c, s| check(c, s), |c| format!("{:?}", c));
   report.absorb("pair", stats, found);
-  let (shards, cases) = match tier { Tier::Quick => (16, 200), Tier::Thorough => (16, 8000) };
+  let (shards, cases) = match tier { Tier::Quick => (16, 200), Tier::Thorough => (16, 3000) };
   let cfg = SearchCfg { prop: "C13", label: "seq", seed, shards, cases_per_shard: cases, max_shrink_iters: 400 };
   let (stats, found) = driver::search(&cfg, &known, seq_strategy, |c, s| check_seq(c, s), |c| format!("{:?}", c));
   report.absorb("seq", stats, found);
